@@ -507,6 +507,12 @@ class SSeq(SV):
     def append(self, v):
         return SSeq(self.te, z3.Store(self.arr, self.n, to_z3(v, self.te)), z3.simplify(self.n + 1))
 
+    def same(self, o):
+        """same length and same elements"""
+        j = z3.Int(fresh_name("j"))
+        return SBool(z3.And(self.n == o.n, z3.ForAll([j], z3.Implies(z3.And(0 <= j, j < self.n),
+                                                                     z3.Select(self.arr, j) == z3.Select(o.arr, j)))))
+
     @staticmethod
     def of(te, items):
         arr = z3.K(z3.IntSort(), default_z3(te))
